@@ -78,11 +78,11 @@ def intOps (op : String) (args : List String) : Option String :=
   | "hex_to_u64", [b] => do let b ← parseBytes? b; pure (showOutcome toString (hexToU64 b))
   | _, _ => none
 
-/-- digest of an id list: length, order-sensitive multiplicative hash, sum and xor (all mod 2^64) -/
+/-- digest of an id list: length, order-sensitive multiplicative hash, exact sum, xor -/
 def digestList (l : List Nat) : String :=
-  let (h, sm, x) := l.foldl (fun (acc : UInt64 × UInt64 × UInt64) v =>
-      let v := v.toUInt64
-      ((acc.1 ^^^ v) * 1099511628211, acc.2.1 + v, acc.2.2 ^^^ v)) ((14695981039346656037 : UInt64), 0, 0)
+  let (h, sm, x) := l.foldl (fun (acc : UInt64 × Nat × UInt64) v =>
+      let w := v.toUInt64
+      ((acc.1 ^^^ w) * 1099511628211, acc.2.1 + v, acc.2.2 ^^^ w)) ((14695981039346656037 : UInt64), 0, 0)
   s!"n={l.length} h={h} s={sm} x={x}"
 
 /-- `digest <request>` for the list-valued operations: the same outcome with the list replaced by its digest -/
